@@ -814,6 +814,14 @@ func genC18(g *h.G) {
 		g.Emit("mk.prune", ts, ps)
 		g.Emit("go.prune", ts, ps)
 	}
+	// deep chains: the prover accepts depth 1024, the proof cell over an unpruned chain of depth 1024 is too deep
+	for _, d := range []int{1022, 1023, 1024, 1025} {
+		t := h.ChainTable(d, h.Row{BitLen: 5, Data: []byte{0x50}})
+		for _, p := range [][][]int{nil, {{}}, {{0}}, {make([]int, d)}, {make([]int, d/2)}, {make([]int, 1)}} {
+			g.Count("prune_deep_chain")
+			g.Emit("mk.prune", h.TableString(t), pathsString(p))
+		}
+	}
 	// inputs the prover does not support or that make the cursor panic: model = code only
 	for i := 0; i < g.Scale(150, 1500); i++ {
 		t := g.RandExoticTable(g.Pick(2, 4, 8))
